@@ -1,6 +1,6 @@
 (* Extraction of the executable model to OCaml.  ExtrOcamlBasic only: bool, option, list, prod, unit, sumbool map to
    OCaml natives; N, Z, positive, nat, ascii, string stay as the extracted inductive types. *)
 From Coq Require Import Extraction ExtrOcamlBasic.
-From SkV Require Import Sx Entry.
+From SkV Require Import Sx Entry EntryChain.
 Extraction Language OCaml.
-Extraction "extract/skmodel.ml" dispatch.
+Extraction "extract/skmodel.ml" dispatch_all.
